@@ -179,3 +179,45 @@ def matches_known(k, op, il, mres, tag):
         return (f[2] == "change-pi" and il == "ok pass") or \
                (f[2] in ("keep-none-cr", "keep-none-attr-cdata-end") and il == "ok fail")
     return il == mres
+
+
+# ---- identity-field model (checklib/models/ident.py): ops whose first token is IDENT are routed there ----
+import sys as _sys
+_sys.path.insert(0, os.path.join(os.path.dirname(os.path.dirname(os.path.abspath(__file__))), "models"))
+import ident as _ident
+
+_own = {n: globals()[n] for n in ("nontrivial", "branch", "predicate", "matches_known")}
+
+
+def _is_ident(op):
+    return op.startswith("IDENT ")
+
+
+def canon_model(op, mres):
+    return _ident.canon_model(op, mres) if _is_ident(op) else mres
+
+
+def equiv(op, il, mres):
+    return _ident.equiv(op, il, mres) if _is_ident(op) else il == mres
+
+
+def nontrivial(op, mres, tag):
+    return _ident.nontrivial(op, mres, tag) if _is_ident(op) else _own["nontrivial"](op, mres, tag)
+
+
+def branch(op, mres, tag):
+    return _ident.branch(op, mres, tag) if _is_ident(op) else _own["branch"](op, mres, tag)
+
+
+def predicate(op, il, mres, tag):
+    return _ident.predicate("C19", op, il, mres, tag) if _is_ident(op) else _own["predicate"](op, il, mres, tag)
+
+
+def matches_known(k, op, il, mres, tag):
+    return _ident.matches_known(k, op, il, mres, tag) if _is_ident(op) else _own["matches_known"](k, op, il, mres, tag)
+
+
+RULE = RULE + " || " + _ident.RULE
+TRUSTED = TRUSTED + _ident.TRUSTED
+ASSUMPTIONS = ASSUMPTIONS + _ident.ASSUMPTIONS
+UNPROVED = UNPROVED + _ident.UNPROVED
